@@ -343,6 +343,18 @@ class Interp:
         return Tup([s.eval(n.elt, inner, d)])
     e_GeneratorExp = e_ListComp
     def e_Call(s, n, sc, d):
+        r = s._e_call(n, sc, d)
+        # a method the analysis does not know, called on a plain (array-like) local with tracked data in play, may update the local
+        # in place (ndarray.itemset / fill / put / sort ...): the local is unknown from here on, never "unchanged"
+        f = n.func
+        if isinstance(f, ast.Attribute) and isinstance(f.value, ast.Name) and f.attr not in NON_MUTATING_METHODS and f.value.id in sc.vars:
+            cur = sc.vars[f.value.id]
+            if not isinstance(cur, (Tup, Obj, Fn, Cls, Mod, Bound)):
+                argv = [s.eval(a.value if isinstance(a, ast.Starred) else a, sc, d) for a in n.args] + [s.eval(k.value, sc, d) for k in n.keywords]
+                if not s.untracked(cur) or any(not s.untracked(a) for a in argv):
+                    sc.vars[f.value.id] = s.dom.top(f"possibly updated in place by .{f.attr}()")
+        return r
+    def _e_call(s, n, sc, d):
         args = []
         for a in n.args:
             if isinstance(a, ast.Starred):
@@ -364,14 +376,7 @@ class Interp:
         fv = s.eval(f, sc, d)
         if isinstance(fv, Fn): return s.call_fn(fv, args, kwargs, d + 1)
         if isinstance(fv, Cls): return s.construct(fv.ci, args, kwargs, d)
-        if isinstance(fv, Bound):
-            r = s.bound_call(fv, args, kwargs, n)
-            # a method the analysis does not know, called on a plain (array-like) local with tracked data in play, may update the
-            # local in place (ndarray.itemset / fill / put / sort ...): the local is unknown from here on, never "unchanged"
-            if (not isinstance(fv.v, (Tup, Obj)) and isinstance(f, ast.Attribute) and isinstance(f.value, ast.Name) and f.attr not in NON_MUTATING_METHODS
-                    and f.value.id in sc.vars and (not s.untracked(fv.v) or any(not s.untracked(a) for a in args) or any(not s.untracked(v) for v in kwargs.values()))):
-                sc.vars[f.value.id] = s.dom.top(f"possibly updated in place by .{f.attr}()")
-            return r
+        if isinstance(fv, Bound): return s.bound_call(fv, args, kwargs, n)
         name = fv.path if isinstance(fv, Mod) else (f.id if isinstance(f, ast.Name) else None)
         if name is not None: return s.summary(name, args, kwargs, n)
         if all(s.untracked(a) for a in args) and all(s.untracked(v) for v in kwargs.values()): return s.dom.U
